@@ -304,6 +304,9 @@ impl Index for HnswIndex {
 
         // Check for duplicate ID and update in place if found
         {
+            // (Re-)inserting an id makes it live again: forget an earlier delete of the same id,
+            // otherwise the new vector would be filtered out as a tombstone on every rebuild.
+            self.tombstones.write().remove(&id);
             let mut vectors = self.vectors.write();
             if let Some(pos) = vectors
                 .iter()
@@ -353,6 +356,7 @@ impl Index for HnswIndex {
                 }
             }
             {
+                self.tombstones.write().remove(id);
                 let mut vectors = self.vectors.write();
                 if let Some(pos) = vectors
                     .iter()
@@ -371,6 +375,11 @@ impl Index for HnswIndex {
     }
 
     fn delete(&mut self, id: TupleId) {
+        // Only ids that are actually stored become tombstones; deleting an unknown id is a no-op
+        // (it used to inflate the tombstone ratio and trigger needless compactions).
+        if !self.vectors.read().iter().any(|(stored, _)| *stored == id) {
+            return;
+        }
         self.tombstones.write().insert(id);
 
         // Auto-compact when tombstone ratio exceeds 30% (#49)
@@ -385,6 +394,11 @@ impl Index for HnswIndex {
                     .collect()
             };
             let _ = self.rebuild(&active);
+        } else {
+            // Below the compaction threshold the vector stays stored, but the search graph must
+            // not return it any more: rebuild the graph from the non-tombstoned vectors (the
+            // same rebuild every insert performs).
+            let _ = self.rebuild_hnsw();
         }
     }
 
